@@ -247,7 +247,7 @@ def check_property(pid, tier, seed):
     wit_cache = {}
 
     def wit_for(r, d):
-        key = (r['unit'], d.get('fn'))
+        key = (r['unit'], d.get('fn'), tuple(d.get('witness_args') or []))
         if key not in wit_cache:
             if replay_info and replay_info['ok']:
                 wit_cache[key] = witness.search(r['unit'], registry.UNITS[r['unit']], d, replay_info['bin'], tier, REPO, BUILD, log)
